@@ -38,11 +38,22 @@ def rsvd_cases(draw, tier, size=None):
         kind = "pattern:" + pat
     R = draw(st.integers(1, k))
     algo = draw(st.sampled_from(["rand_qsvd", "pass_eff_qsvd"]))
+    force = {}
+    if n >= 3 and draw(st.integers(0, 7)) == 0:
+        # an EARLY column depends on its predecessor(s), independent columns follow (column order matters to any
+        # unpivoted factorisation of the raw columns); default-sized sketch, two passes
+        A = draw(gen.qarray(m, n, draw(st.sampled_from(["generic", "int"]))))[0].copy()
+        A[:, 1] = ref.qmul(A[:, 0], draw(gen.unit_q(exact=True)).reshape(1, 4))
+        kind = "dependent_early_column"
+        R = draw(st.integers(1, max(1, min(m, n - 1))))
+        force = {"oversample": 10, "n_passes": 2, "n_iter": draw(st.sampled_from([0, 2]))}
     A = A * 10.0 ** draw(st.sampled_from([0, 0, 0, 0, -12, -9, -4, 4, 9]))     # the property is scale free
-    return {"A": np.ascontiguousarray(A), "kind": kind, "R": R, "algo": algo,
+    case = {"A": np.ascontiguousarray(A), "kind": kind, "R": R, "algo": algo,
             "oversample": draw(st.sampled_from([0, 1, 2, 3, 5, 10])),
             "n_iter": draw(st.integers(0, 3)), "n_passes": draw(st.integers(2, 5)),
             "seed": draw(gen.seeds())}
+    case.update(force)
+    return case
 
 
 LONG_DIMS = (63, 64, 65, 127, 129, 200, 255, 256, 257, 300, 511, 513, 600)
@@ -64,30 +75,43 @@ def long_cases(draw, tier):
     C = rng.standard_normal((r, sh, 4))
     # graded columns so the spectrum is simple and well separated (outside the known-finding classes)
     A = ref.qmm(B * (2.0 ** -np.arange(r))[None, :, None], C)
-    if draw(st.integers(0, 2)) == 0:
+    dominant = False
+    isolated = draw(st.integers(0, 2)) == 0
+    if isolated and draw(st.integers(0, 2)) > 0:
+        sh = draw(st.integers(8, 24))                 # short side above the sketch width: the sketch has to FIND the lines
+        r = draw(st.integers(2, 4))
+        B = rng.standard_normal((Lg, r, 4))
+        C = rng.standard_normal((r, sh, 4))
+    if isolated:
         # the same rank carried by r isolated rows of a long matrix whose other rows are exactly zero (after the
         # optional transposition below: r isolated columns): structured sketches must not lose such data
         A = np.zeros((Lg, sh, 4))
         rows = draw(st.lists(st.integers(0, Lg - 1), min_size=r, max_size=r, unique=True))
         for t, i in enumerate(rows):
             A[i] = C[t] * 2.0 ** -t
-    if sh >= 8 and draw(st.integers(0, 3)) == 0:
+    if sh >= 8 and not isolated and draw(st.integers(0, 1)) == 0:
         # one dominant singular value (a common offset on top of full-rank unit noise): the small singular values are
         # well separated from each other but tiny relative to sigma_1
-        off = draw(st.sampled_from([1e5, 1e6, 1e7]))
+        off = draw(st.sampled_from([1e5, 1e6, 1e7, 1e7]))
         A = off * np.stack([np.ones((Lg, sh)), np.zeros((Lg, sh)), np.zeros((Lg, sh)), np.zeros((Lg, sh))], axis=-1) \
             + rng.standard_normal((Lg, sh, 4))
         r = sh
-    if draw(st.booleans()):
+        dominant = True
+    if draw(st.sampled_from([False, True] if not dominant else [False, False, True])):
         A = np.ascontiguousarray(ref.conjT(A))
     R = r if draw(st.integers(0, 2)) else draw(st.integers(r, min(sh, r + 3)))     # rank == R is outside the known-finding class
     if r == sh and sh >= 8:
         R = draw(st.integers(2, 4))
     A = A * 10.0 ** draw(st.sampled_from([0, 0, -6, 5]))
-    return {"A": np.ascontiguousarray(A), "kind": f"long:rank{r}", "R": R,
-            "algo": draw(st.sampled_from(["rand_qsvd", "pass_eff_qsvd"])),
+    # structured data favours the option values that hand the RAW sketch to the factorisations (no power iterations,
+    # the default two passes)
+    return {"A": np.ascontiguousarray(A), "kind": f"long:rank{r}" + (":isolated_lines" if isolated else "") + (":dominant_sigma" if dominant else ""),
+            "R": R,
+            "algo": draw(st.sampled_from(["rand_qsvd", "rand_qsvd", "pass_eff_qsvd"] if isolated else
+                                         (["rand_qsvd", "pass_eff_qsvd", "pass_eff_qsvd"] if dominant else ["rand_qsvd", "pass_eff_qsvd"]))),
             "oversample": draw(st.sampled_from([0, 0, 1, 2, 5, 10])),
-            "n_iter": draw(st.sampled_from([0, 0, 0, 1, 2, 3])), "n_passes": draw(st.integers(2, 5)),
+            "n_iter": draw(st.sampled_from([0, 0, 0, 0, 0, 1] if isolated else [0, 0, 0, 1, 2, 3])),
+            "n_passes": draw(st.sampled_from([2, 2, 2, 3, 4, 5] if dominant else [2, 3, 4, 5])),
             "seed": draw(gen.seeds())}
 
 
